@@ -152,6 +152,8 @@ def run(ctx) -> None:
     ctx.rule("C05.R7-instance-set-owned-by-graph", "the 'represents' list of a placeholder (the instances 0..k of a looped component) is "
              "modified only inside graph.py: code elsewhere that obtains a placeholder entry works on a deep copy before it "
              "appends to / rewrites that list (a shallow copy shares the list)")
+    ctx.rule("C05.R8-instances-matched-by-full-id", "the instances collected for a placeholder (its 'represents' list and 'latest') are selected "
+             "by the placeholder's stage AND blueprint name: both components of the placeholder id flow into the selection")
     ctx.rule("C05.R6-state-from-latest", "currentCondition/currentIteration derive from the instance with the numerically highest iteration")
 
     mods = [ctx.repo.module(r) for r in SCOPE]
@@ -507,3 +509,141 @@ def run(ctx) -> None:
            "currentCondition and currentIteration are computed from the latest instance" if ok else
            "currentCondition/currentIteration are not both derived from the latest instance",
            construct="dw['state'] = {currentCondition, currentIteration} from latest")
+
+    check_placeholder_match(ctx, g)
+
+
+def check_placeholder_match(ctx, g) -> None:
+    """R8: component-wise flow of the placeholder id (stage, name) into the expression that selects its instances."""
+    rule = "C05.R8-instances-matched-by-full-id"
+    fn = g.func("WorkflowGraph._discover_dowhile_placeholders")
+    ctx.analysed(fn)
+    FULL = frozenset({0, 1})
+    helpers = {n.name: n for n in source.walk_own(fn) if isinstance(n, ast.FunctionDef)}
+
+    # the loop over the placeholder ids: its target is formatted with a two-slot pattern ('stage%d.%s' % <target>) or iterates a
+    # list of 2-tuples
+    def two_tuple_list(name: str) -> bool:
+        return any(isinstance(v, (ast.ListComp, ast.GeneratorExp)) and isinstance(v.elt, ast.Tuple) and len(v.elt.elts) == 2
+                   for v in match.assigned_value(fn, name))
+    loops = [n for n in source.walk_own(fn) if isinstance(n, ast.For) and isinstance(n.target, ast.Name)
+             and isinstance(n.iter, ast.Name) and two_tuple_list(n.iter.id)]
+    ctx.require(bool(loops), "anchor missing: the loop over the (stage, name) placeholder ids in _discover_dowhile_placeholders")
+    loop = loops[0]
+    idvar = loop.target.id
+
+    def ev(e: ast.AST, env: dict, ids: set, depth: int = 0) -> frozenset:
+        """components of the placeholder id that the value of e depends on"""
+        if e is None or depth > 6:
+            return frozenset()
+        if isinstance(e, ast.Name):
+            return FULL if e.id in ids else env.get(e.id, frozenset())
+        if isinstance(e, ast.Subscript) and isinstance(e.value, ast.Name) and e.value.id in ids:
+            if isinstance(e.slice, ast.Constant) and e.slice.value in (0, 1):
+                return frozenset({e.slice.value})
+            if isinstance(e.slice, ast.Constant) and e.slice.value in (-1, -2):
+                return frozenset({2 + e.slice.value})
+            return FULL
+        if isinstance(e, ast.Call) and isinstance(e.func, ast.Name) and e.func.id in helpers:
+            h = helpers[e.func.id]
+            params = [a.arg for a in h.args.args]
+            henv, hids = {}, set()
+            for prm, arg in zip(params, e.args):
+                if isinstance(arg, ast.Name) and arg.id in ids:
+                    hids.add(prm)
+                else:
+                    henv[prm] = ev(arg, env, ids, depth + 1)
+            for kw in e.keywords:
+                if kw.arg in params:
+                    if isinstance(kw.value, ast.Name) and kw.value.id in ids:
+                        hids.add(kw.arg)
+                    else:
+                        henv[kw.arg] = ev(kw.value, env, ids, depth + 1)
+            propagate(h, henv, hids, depth + 1)
+            out = frozenset()
+            for r in source.walk_own(h):
+                if isinstance(r, ast.Return) and r.value is not None:
+                    out |= ev(r.value, henv, hids, depth + 1)
+            return out
+        if isinstance(e, (ast.ListComp, ast.SetComp, ast.GeneratorExp, ast.DictComp)):
+            bound = {x.id for gen in e.generators for x in ast.walk(gen.target) if isinstance(x, ast.Name)}
+            env2 = {k: v for k, v in env.items() if k not in bound}
+            ids2 = ids - bound
+            out = frozenset()
+            for gen in e.generators:
+                out |= ev(gen.iter, env2, ids2, depth + 1)
+                for c in gen.ifs:
+                    out |= ev(c, env2, ids2, depth + 1)
+            # the element decides *what* is collected, the conditions and sources decide *which*; both count as flow
+            elts = [e.key, e.value] if isinstance(e, ast.DictComp) else [e.elt]
+            for x in elts:
+                out |= ev(x, env2, ids2, depth + 1)
+            return out
+        if isinstance(e, ast.Lambda):
+            bound = {a.arg for a in e.args.args}
+            return ev(e.body, {k: v for k, v in env.items() if k not in bound}, ids - bound, depth + 1)
+        out = frozenset()
+        for ch in ast.iter_child_nodes(e):
+            if isinstance(ch, (ast.expr_context, ast.operator, ast.cmpop, ast.boolop, ast.unaryop)):
+                continue
+            if isinstance(ch, ast.keyword):
+                out |= ev(ch.value, env, ids, depth + 1)
+            elif isinstance(ch, ast.expr):
+                out |= ev(ch, env, ids, depth + 1)
+        return out
+
+    def propagate(scope: ast.AST, env: dict, ids: set, depth: int = 0) -> None:
+        changed = True
+        rounds = 0
+        while changed and rounds < 10:
+            changed = False
+            rounds += 1
+            for n in source.walk_own(scope):
+                if not isinstance(n, ast.Assign) or len(n.targets) != 1:
+                    continue
+                t = n.targets[0]
+                if isinstance(t, ast.Name):
+                    if isinstance(n.value, ast.Name) and n.value.id in ids:
+                        if t.id not in ids:
+                            ids.add(t.id)
+                            changed = True
+                        continue
+                    v = ev(n.value, env, ids, depth)
+                    if v - env.get(t.id, frozenset()):
+                        env[t.id] = env.get(t.id, frozenset()) | v
+                        changed = True
+                elif isinstance(t, ast.Tuple) and isinstance(n.value, ast.Name) and n.value.id in ids and len(t.elts) == 2:
+                    for i, x in enumerate(t.elts):
+                        if isinstance(x, ast.Name) and i not in env.get(x.id, frozenset()):
+                            env[x.id] = env.get(x.id, frozenset()) | {i}
+                            changed = True
+
+    env: dict = {}
+    ids = {idvar}
+    propagate(loop, env, ids)
+
+    # the selected set: what is sorted (descending) to find the latest instance, and what is removed from the remaining ids
+    selected: List[ast.AST] = []
+    for n in source.walk_own(loop):
+        if isinstance(n, ast.Call) and call_name(n) == "sorted" and n.args and any(k.arg == "reverse" for k in n.keywords):
+            selected.append(n.args[0])
+        if isinstance(n, ast.Call) and last_attr(n) == "difference_update" and n.args:
+            selected.append(n.args[0])
+        if isinstance(n, ast.Assign) and any(isinstance(t, ast.Subscript) and isinstance(t.slice, ast.Constant) and t.slice.value == "represents"
+                                             for t in n.targets):
+            selected.append(n.value)
+        if isinstance(n, ast.Dict):
+            for k, v in zip(n.keys, n.values):
+                if isinstance(k, ast.Constant) and k.value == "represents":
+                    selected.append(v)
+    ctx.floor(rule, len(selected), 2, "uses of the set of instances matched to a placeholder (latest, represents, removal)")
+    for e in selected:
+        got = ev(e, env, ids)
+        ok = got == FULL
+        missing = "stage" if 0 not in got else "blueprint name" if 1 not in got else ""
+        ctx.ob(rule, e, ok,
+               "the instances of a placeholder are selected by its stage and its name" if ok else
+               "the instances collected for a placeholder do not depend on the placeholder's %s: a DoWhile document that uses the same "
+               "component name in two of its stages (ids are (stage, name) pairs, so this is legal) gets the instances of both "
+               "components in 'represents' (':loopref' lists 2(k+1) paths) and 'latest' may point into the other stage" % missing,
+               construct="%s <- depends on the placeholder's stage and name" % short(e, 60))
